@@ -37,6 +37,9 @@ pub struct WHist {
     pub ending: Ending,
     pub a: Geom,
     pub b: Geom,
+    /// run through ShapeWriter::from_path (BufWriter<File>) and look at the files on disk
+    #[serde(default)]
+    pub disk: bool,
 }
 
 pub struct Interleave;
@@ -86,6 +89,75 @@ fn check_interleave<K: Kind>(c: &WHist, ctx: &mut Ctx) -> Result<(), Fail> {
     }
     if c.ops.windows(2).any(|w| w == [WOp::Fin, WOp::Fin]) {
         ctx.class("repeated-finalize");
+    }
+
+    if c.disk {
+        ctx.class("from_path");
+        let dir = crate::common::scratch_dir();
+        let p = dir.join("c09.shp");
+        let px = p.with_extension("shx");
+        let _ = std::fs::remove_file(&p);
+        let _ = std::fs::remove_file(&px);
+        let mut w = ShapeWriter::from_path(&p).map_err(|e| Fail::new("write-error", err_str(&e)))?;
+        let mut so_far: Vec<&K> = Vec::new();
+        for (k, op) in c.ops.iter().enumerate() {
+            match op {
+                WOp::Fin => {
+                    w.finalize().map_err(|e| Fail::new("finalize-error", format!("disk op #{}: {}", k, err_str(&e))))?;
+                    // flushed: what is on disk NOW must be a complete shapefile with exactly the shapes so far
+                    let now = std::fs::read(&p).map_err(|e| Fail::new("disk-io", e.to_string()))?;
+                    let d = refcodec::decode(&now, Mode::Strict).map_err(|e| {
+                        Fail::new("finalized-incomplete", format!("history {:?} (from_path): after finalize #{} the file on disk ({} bytes) is not a complete shapefile: {}", c.ops, k, now.len(), e))
+                    })?;
+                    ensure!(
+                        d.recs.len() == so_far.len() && d.recs.iter().zip(&so_far).all(|(r, s)| r.geom == crate::c02::file_view(&s.view())),
+                        "finalized-incomplete",
+                        "history {:?} (from_path): after finalize #{} the file on disk holds {} records, {} written",
+                        c.ops,
+                        k,
+                        d.recs.len(),
+                        so_far.len()
+                    );
+                    let xnow = std::fs::read(&px).map_err(|e| Fail::new("disk-io", e.to_string()))?;
+                    let xd = refcodec::decode_shx(&xnow).map_err(|e| Fail::new("finalized-incomplete", format!("history {:?} (from_path): .shx on disk after finalize #{}: {}", c.ops, k, e)))?;
+                    ensure!(xd.entries.len() == so_far.len(), "finalized-incomplete", "history {:?} (from_path): .shx on disk has {} entries, {} written", c.ops, xd.entries.len(), so_far.len());
+                }
+                o => {
+                    let s = pick(*o);
+                    w.write_shape(s).map_err(|e| Fail::new("write-error", err_str(&e)))?;
+                    so_far.push(s);
+                }
+            }
+        }
+        match c.ending {
+            Ending::Drop => drop(w),
+            Ending::FinalizeDrop => {
+                w.finalize().map_err(|e| Fail::new("finalize-error", err_str(&e)))?;
+                drop(w);
+            }
+            Ending::WriteShapes(k) => {
+                let tail: Vec<K> = (0..k).map(|i| if i % 2 == 0 { a.clone() } else { b.clone() }).collect();
+                w.write_shapes(tail.iter()).map_err(|e| Fail::new("write-error", err_str(&e)))?;
+            }
+        }
+        // reference through the same kind of destination: from_path, write the same shapes, drop
+        let rp = dir.join("c09-ref.shp");
+        {
+            let mut rw = ShapeWriter::from_path(&rp).map_err(|e| Fail::new("write-error", err_str(&e)))?;
+            for s in &ref_shapes {
+                rw.write_shape(s).map_err(|e| Fail::new("write-error", err_str(&e)))?;
+            }
+        }
+        let ref_shp2 = std::fs::read(&rp).map_err(|e| Fail::new("disk-io", e.to_string()))?;
+        let ref_shx2 = std::fs::read(rp.with_extension("shx")).map_err(|e| Fail::new("disk-io", e.to_string()))?;
+        if let Err(e) = refcodec::decode(&ref_shp2, Mode::Strict) {
+            fail!("reference-malformed", "from_path write-and-drop output rejected: {}", e);
+        }
+        let got = std::fs::read(&p).map_err(|e| Fail::new("disk-io", e.to_string()))?;
+        ensure!(got == ref_shp2, "differs-from-drop", "history {:?} ending {:?} (from_path): .shp on disk differs from write-and-drop{}", c.ops, c.ending, first_diff(&got, &ref_shp2));
+        let gotx = std::fs::read(&px).map_err(|e| Fail::new("disk-io", e.to_string()))?;
+        ensure!(gotx == ref_shx2, "differs-from-drop", "history {:?} ending {:?} (from_path): .shx on disk differs from write-and-drop", c.ops, c.ending);
+        return Ok(());
     }
 
     let shp = Dest::new();
@@ -236,7 +308,8 @@ impl Prop for Interleave {
          finalize+drop, write_shapes(0), write_shapes(2)} x {with shx, without} x 13 types x 3 (thorough 6) generated shape pairs a, b per type (fixed per seed, b longer \
          than a where the type allows). Oracle: final .shp/.shx bytes == bytes of 'write the same shapes, drop' (itself \
          validated by the independent strict decoder); after every successful finalize both destinations are flushed and decode to \
-         exactly the shapes written so far with a matching index; a finalize directly after a successful finalize issues no I/O. \
+         exactly the shapes written so far with a matching index; a finalize directly after a successful finalize issues no I/O; histories up to length 4 (thorough 6) also run through \
+         ShapeWriter::from_path, where after every finalize the FILE ON DISK must already be complete and the final files equal the reference. \
          Non-trivial: a finalize that is not the last call before the writer goes away"
     }
     fn check(c: &WHist, ctx: &mut Ctx) -> Result<(), Fail> {
@@ -287,6 +360,7 @@ impl EnumProp for Interleave {
     fn enumerate(env: &Env) -> Box<dyn Iterator<Item = WHist>> {
         let max_len = env.pickn(6, 8);
         let npairs = env.pickn(3, 6);
+        let disk_len = env.pickn(4, 6);
         let pairs: Vec<(Ty, Geom, Geom)> = ALL13
             .iter()
             .flat_map(|t| {
@@ -305,7 +379,7 @@ impl EnumProp for Interleave {
             }
             let s = seqs.next_seq(max_len)?;
             let ops: Vec<WOp> = s.iter().map(|x| [WOp::A, WOp::B, WOp::Fin][*x]).collect();
-            for (ty, a, b) in &pairs {
+            for (pi, (ty, a, b)) in pairs.iter().enumerate() {
                 for ending in endings {
                     for with_shx in [true, false] {
                         pending.push(WHist {
@@ -315,6 +389,19 @@ impl EnumProp for Interleave {
                             ending,
                             a: a.clone(),
                             b: b.clone(),
+                            disk: false,
+                        });
+                    }
+                    // files on disk: histories up to disk_len, first pair of each type
+                    if ops.len() <= disk_len && pi % npairs == 0 {
+                        pending.push(WHist {
+                            ty: *ty,
+                            with_shx: true,
+                            ops: ops.clone(),
+                            ending,
+                            a: a.clone(),
+                            b: b.clone(),
+                            disk: true,
                         });
                     }
                 }
@@ -342,6 +429,10 @@ pub struct THist {
     pub ops: Vec<TOp>,
     pub g_first: Geom,
     pub g_offered: Geom,
+    /// consuming bulk call at the end: 0 = none (drop), 1 = write_shapes / write_shapes_and_records with two shapes of
+    /// the offered type, 2 = with two shapes of the first type
+    #[serde(default)]
+    pub tail: u8,
 }
 
 pub struct OneType;
@@ -362,6 +453,32 @@ fn row(i: usize) -> dbase::Record {
 trait AnyWriter {
     fn write(&mut self, t: Ty, g: &Geom, i: usize) -> Result<(), Error>;
     fn fin(&mut self) -> Result<(), Error>;
+    /// consuming bulk write of two shapes of type t
+    fn bulk(self: Box<Self>, t: Ty, g: &Geom, i: usize) -> Result<(), Error>;
+}
+
+struct BulkS<'a>(ShapeWriter<Dest>, &'a Geom);
+impl KindFn for BulkS<'_> {
+    type Out = Result<(), Error>;
+    fn call<K: Kind>(self) -> Self::Out
+    where
+        Error: From<<K as TryFrom<Shape>>::Error>,
+    {
+        let v = vec![K::build(self.1, Ctor::Plain), K::build(self.1, Ctor::Plain)];
+        self.0.write_shapes(v.iter())
+    }
+}
+struct BulkC<'a>(Writer<Dest>, &'a Geom, usize);
+impl KindFn for BulkC<'_> {
+    type Out = Result<(), Error>;
+    fn call<K: Kind>(self) -> Self::Out
+    where
+        Error: From<<K as TryFrom<Shape>>::Error>,
+    {
+        let v = vec![K::build(self.1, Ctor::Plain), K::build(self.1, Ctor::Plain)];
+        let r = vec![row(self.2), row(self.2 + 1)];
+        self.0.write_shapes_and_records(v.iter().zip(r.iter()))
+    }
 }
 
 struct SW(ShapeWriter<Dest>);
@@ -393,6 +510,9 @@ impl AnyWriter for SW {
     fn fin(&mut self) -> Result<(), Error> {
         self.0.finalize()
     }
+    fn bulk(self: Box<Self>, t: Ty, g: &Geom, _i: usize) -> Result<(), Error> {
+        dispatch(t, BulkS(self.0, g))
+    }
 }
 impl AnyWriter for CW {
     fn write(&mut self, t: Ty, g: &Geom, i: usize) -> Result<(), Error> {
@@ -400,6 +520,9 @@ impl AnyWriter for CW {
     }
     fn fin(&mut self) -> Result<(), Error> {
         Ok(())
+    }
+    fn bulk(self: Box<Self>, t: Ty, g: &Geom, i: usize) -> Result<(), Error> {
+        dispatch(t, BulkC(self.0, g, i))
     }
 }
 
@@ -425,7 +548,7 @@ fn make_writer(kind: u8) -> (Box<dyn AnyWriter>, Vec<Dest>) {
 
 /// Runs a history; returns the final bytes of every destination. With `strict`, rejected calls are
 /// checked (error value, no I/O).
-fn run_thist(c: &THist, ops: &[TOp], strict: bool, ctx: &mut Ctx) -> Result<Vec<Vec<u8>>, Fail> {
+fn run_thist(c: &THist, ops: &[TOp], tail: u8, strict: bool, ctx: &mut Ctx) -> Result<Vec<Vec<u8>>, Fail> {
     let (mut w, dests) = make_writer(c.writer);
     let mut file_ty: Option<Ty> = None;
     let mut seen_reject = false;
@@ -440,7 +563,7 @@ fn run_thist(c: &THist, ops: &[TOp], strict: bool, ctx: &mut Ctx) -> Result<Vec<
             o => {
                 let (t, g) = if *o == TOp::First { (c.first, &c.g_first) } else { (c.offered, &c.g_offered) };
                 let expect_ok = file_ty.is_none() || file_ty == Some(t);
-                let before: Vec<(usize, Vec<u8>)> = dests.iter().map(|d| (d.ops(), d.bytes())).collect();
+                let before: Vec<(usize, Vec<u8>)> = dests.iter().map(|d| (d.write_calls(), d.bytes())).collect();
                 let r = w.write(t, g, idx);
                 match (expect_ok, r) {
                     (true, Ok(())) => {
@@ -473,12 +596,12 @@ fn run_thist(c: &THist, ops: &[TOp], strict: bool, ctx: &mut Ctx) -> Result<Vec<
                         );
                         for (di, d) in dests.iter().enumerate() {
                             ensure!(
-                                d.ops() == before[di].0 && d.bytes() == before[di].1,
+                                d.write_calls() == before[di].0 && d.bytes() == before[di].1,
                                 "rejected-write-io",
-                                "history {:?} op #{}: the rejected write issued {} I/O operation(s) on destination {} ({})",
+                                "history {:?} op #{}: the rejected write issued {} write call(s) on destination {} ({})",
                                 ops,
                                 k,
-                                d.ops() - before[di].0,
+                                d.write_calls() - before[di].0,
                                 di,
                                 ["shp", "shx", "dbf"][di]
                             );
@@ -488,7 +611,32 @@ fn run_thist(c: &THist, ops: &[TOp], strict: bool, ctx: &mut Ctx) -> Result<Vec<
             }
         }
     }
-    drop(w);
+    if tail != 0 {
+        let (t, g) = if tail == 2 { (c.first, &c.g_first) } else { (c.offered, &c.g_offered) };
+        let expect_ok = file_ty.is_none() || file_ty == Some(t);
+        match (expect_ok, w.bulk(t, g, idx)) {
+            (true, Ok(())) => {}
+            (true, Err(e)) => fail!("write-error", "history {:?}: bulk write of the file's own type fails: {}", ops, err_str(&e)),
+            (false, Ok(())) => fail!(
+                "mismatch-accepted",
+                "history {:?}: the consuming bulk write accepted shapes of type {} on a writer holding {}",
+                ops,
+                t.name(),
+                file_ty.unwrap().name()
+            ),
+            (false, Err(e)) => ensure!(
+                mismatch(&e) == Some((file_ty.unwrap(), t)),
+                "mismatch-error",
+                "history {:?}: bulk write rejected with {:?}, expected MismatchShapeType{{requested: {}, actual: {}}}",
+                ops,
+                e,
+                file_ty.unwrap().name(),
+                t.name()
+            ),
+        }
+    } else {
+        drop(w);
+    }
     Ok(dests.iter().map(|d| d.bytes()).collect())
 }
 
@@ -499,13 +647,13 @@ impl Prop for OneType {
     }
     fn rule() -> &'static str {
         "bounded-exhaustive: all 13x12 ordered pairs (first type, offered type) x all sequences over {write first-type, write \
-         offered-type, finalize} of length <= L (quick 6, thorough 8) x {ShapeWriter with shx, without, complete Writer with dbf}. The \
+         offered-type, finalize} of length <= L (quick 6, thorough 8) x {ShapeWriter with shx, without, complete Writer with dbf} x ending {drop, consuming write_shapes / write_shapes_and_records with shapes of the offered type, of the first type}. The \
          type is fixed by the first accepted write; every later write of the other type must return MismatchShapeType{requested: file \
-         type, actual: offered}, leave the op log and bytes of every destination (dbf included) unchanged, and the final files must equal \
+         type, actual: offered}, issue no write call on and leave the bytes of every destination (dbf included) unchanged, and the final files must equal \
          those of the same history with the rejected calls removed. Non-trivial: a rejected call followed by an accepted write"
     }
     fn check(c: &THist, ctx: &mut Ctx) -> Result<(), Fail> {
-        let got = run_thist(c, &c.ops, true, ctx)?;
+        let got = run_thist(c, &c.ops, c.tail, true, ctx)?;
         // same history with the rejected calls deleted
         let mut file_ty: Option<TOp> = None;
         let filtered: Vec<TOp> = c
@@ -522,10 +670,22 @@ impl Prop for OneType {
                 }
             })
             .collect();
-        if filtered.len() != c.ops.len() {
+        // the bulk tail is rejected when a type is already fixed and differs from the tail's type
+        let tail_kind = match c.tail {
+            1 => Some(TOp::Offered),
+            2 => Some(TOp::First),
+            _ => None,
+        };
+        let tail_rejected = matches!((file_ty, tail_kind), (Some(f), Some(t)) if f != t);
+        let ftail = if tail_rejected { 0 } else { c.tail };
+        if tail_rejected {
+            ctx.class("bulk-tail-rejected");
+            ctx.nontrivial();
+        }
+        if filtered.len() != c.ops.len() || tail_rejected {
             ctx.class("has-rejected-call");
             let mut dummy = Ctx::default();
-            let want = run_thist(c, &filtered, false, &mut dummy)?;
+            let want = run_thist(c, &filtered, ftail, false, &mut dummy)?;
             for (i, (g, w)) in got.iter().zip(&want).enumerate() {
                 // bytes 1..4 of a .dbf header hold the date of the last update: not part of the comparison
                 let (mut g, mut w) = (g.clone(), w.clone());
@@ -580,14 +740,21 @@ impl EnumProp for OneType {
                         if writer == 2 && ops.contains(&TOp::Fin) {
                             continue; // the complete Writer has no finalize
                         }
-                        pending.push(THist {
-                            first: *first,
-                            offered: *offered,
-                            writer,
-                            ops: ops.clone(),
-                            g_first: geoms[i].clone(),
-                            g_offered: geoms[j].clone(),
-                        });
+                        for tail in 0..3u8 {
+                            // bulk tails only on the shorter histories (they add one more call)
+                            if tail != 0 && ops.len() + 1 > max_len {
+                                continue;
+                            }
+                            pending.push(THist {
+                                first: *first,
+                                offered: *offered,
+                                writer,
+                                ops: ops.clone(),
+                                g_first: geoms[i].clone(),
+                                g_offered: geoms[j].clone(),
+                                tail,
+                            });
+                        }
                     }
                 }
             }
